@@ -13,6 +13,8 @@ from .. import core, tracecheck
 # (kind id, setup lines, failing statement).  {u} = unique prefix, {x} = the int parameter in scope.
 FAILS = [
     ("assert", [], "assert {x} == 12345"),
+    # the position is a line and a column in CHARACTERS: non-ASCII text before the assert on the same line
+    ("assert_after_non_ascii", [], "if \"über ñ 日本\" != \"q\" {{ assert {x} == 12345 }}"),
     ("get_nil", ["{u}on: int? = nil"], "{u}gv = get {u}on"),
     ("list_index_len", ["{u}lq: [int...] = [1, 2]", "{u}k = 2"], "{u}e = {u}lq[{u}k]"),
     ("list_index_neg", ["{u}lq: [int...] = [1, 2]", "{u}k = -1"], "{u}e = {u}lq[{u}k]"),
@@ -246,12 +248,12 @@ def build_case(fail_idx, kinds, block, module_from=None, recursion_n=2):
         out.append("helper")
     # position of the assert
     pos = None
-    if fid == "assert":
+    if fid.startswith("assert"):
         target = stmt.format(u="q%d" % d, x=("x%d" % d if d else "7"))
         fname = "lib.ms" if (uses_lib and d >= module_from) else "main.ms"
         for i, l in enumerate(files[fname].split("\n")):
             if l.strip() == target:
-                pos = (fname, i + 1, len(l) - len(l.lstrip()) + 1)
+                pos = (fname, i + 1, l.index("assert") + 1)
     return {"files": files, "expected_out": out, "expected_frames": list(reversed(fr)), "assert_pos": pos,
             "fail": fid, "kinds": kinds, "block": block, "module_from": module_from}
 
@@ -365,7 +367,7 @@ def gen_items(ctx):
         items.append((i, (), "none", None, "cat"))
         items.append((i, ("function", "method"), "if", None, "cat"))
     # deterministic part 2: every frame kind x every depth 1..6 (chains of that kind and mixed), assert + div0
-    for fi in (0, 6):
+    for fi in (FAIL_IDS.index("assert"), FAIL_IDS.index("assert_after_non_ascii"), FAIL_IDS.index("div_zero_int")):
         for k in FRAME_KINDS:
             for d in (1, 2, 3, 6):
                 items.append((fi, tuple([k] * d), BLOCKS[d % len(BLOCKS)], None, "cat"))
